@@ -1,8 +1,12 @@
-(* C03 - each step merges a closest pair (PARTIAL: theorem for the primitive
-   algorithm, in terms of the working matrix; the other algorithms and the
-   relation between the working matrix and the criterion are not theorems). *)
+(* C03 - each step merges a closest pair (PARTIAL: theorems for the primitive
+   algorithm - on the working matrix for any carrier, and w.r.t. the
+   closed-form criterion of the method in exact arithmetic; the other
+   algorithms and the rounding tolerance are not theorems). *)
 Require Import KV.Model.Prelude KV.Model.Condensed KV.Model.Active KV.Model.Dendrogram
-  KV.Model.Methods KV.Model.State KV.Model.Primitive KV.Proofs.ActiveRefine KV.Proofs.PrimitiveGreedy.
+  KV.Model.Methods KV.Model.State KV.Model.Primitive KV.Proofs.ActiveRefine KV.Proofs.PrimitiveGreedy
+  KV.Proofs.UpdateSpec KV.Proofs.SortProofs KV.Proofs.Criteria KV.Proofs.LWInvariant KV.Proofs.CriteriaRun.
+From Coq Require Import QArith Permutation.
+Local Close Scope Q_scope.
 
 (* argmin: with >= 2 live clusters it returns a live pair a < b and its working
    dissimilarity v such that NO live pair is strictly smaller (ties: any
@@ -47,3 +51,53 @@ Theorem C03_invariant_preserved : forall (T : Type) (K : kops T) (p : profile),
   exists L', PInv s' M' L'.
 Proof. exact prim_fold_inv. Qed.
 Print Assumptions C03_invariant_preserved.
+
+(* whole runs, generic in the criterion: the raw steps of primitive_with are a
+   GREEDY agglomeration - each joins two live clusters at their criterion
+   value, and no two clusters live at that moment have a strictly smaller
+   criterion value (ties: any minimal pair is admissible) *)
+Theorem C03_primitive_greedy : forall (T : Type) (K : kops T) (p : profile) (meth : method),
+  (forall a b c, k_ltb K a b = true -> k_ltb K b c = true -> k_ltb K a c = true) ->
+  (forall a, k_ltb K a a = false) ->
+  forall crit : mtree -> mtree -> T -> Prop,
+  (forall A B v, crit A B v -> crit B A v) ->
+  (forall X A B va vb md, crit X A va -> crit X B vb -> crit A B md ->
+     crit X (Node A B) (k_upd K va vb md (tsize A) (tsize B) (if uses_size_x meth then tsize X else 0))) ->
+  forall s d m n s' d' m' M0,
+  primitive_with K p meth s d m n = Ok (s', d', m') ->
+  prologue p (square_all K m) n = Ok M0 ->
+  (forall x y v, x <> y -> x < m_obs M0 -> y < m_obs M0 -> wcell M0 x y = Some v -> crit (Leaf x) (Leaf y) v) ->
+  exists raw,
+    gtrace K crit (seq 0 (m_obs M0)) Leaf raw
+    /\ length raw = m_obs M0 - 1
+    /\ Permutation (heights d') (map (k_rt K) (map (@s_dis T) raw))
+    /\ (requires_sorting meth = false -> heights d' = map (k_rt K) (map (@s_dis T) raw)).
+Proof. exact primitive_greedy. Qed.
+Print Assumptions C03_primitive_greedy.
+
+(* the reading of gtrace (pinned so that the definition cannot drift) *)
+Theorem C03_gtrace_inv : forall (T : Type) (K : kops T) (crit : mtree -> mtree -> T -> Prop)
+  L mem st rest, gtrace K crit L mem (st :: rest) ->
+  exists a b v sz, st = step_new a b v sz /\ In a L /\ In b L /\ a < b
+    /\ crit (mem a) (mem b) v
+    /\ (forall x y, In x L -> In y L -> x <> y -> exists w, crit (mem x) (mem y) w /\ k_ltb K w v = false)
+    /\ gtrace K crit (without a L) (upd_mem mem a b) rest.
+Proof.
+  intros T K crit L mem st rest H. inversion H; subst.
+  eexists _, _, _, _. split; [reflexivity|]. repeat (split; [assumption|]). assumption.
+Qed.
+Print Assumptions C03_gtrace_inv.
+
+(* all seven methods in exact rational arithmetic, criterion in closed form
+   (CriteriaRun.crit_of: min / max over cross pairs, mean over cross pairs,
+   dyadic-weight form, squared centre distances, Ward's variance increase) *)
+Theorem C03_primitive_greedy_Q : forall (p : profile) (rt : Q -> Q) (meth : method) s d m n s' d' m' M0,
+  primitive_with (kops_of (QFr rt) meth) p meth s d m n = Ok (s', d', m') ->
+  prologue p (square_all (kops_of (QFr rt) meth) m) n = Ok M0 ->
+  exists raw,
+    gtrace (kops_of (QFr rt) meth) (crit_of meth M0) (seq 0 (m_obs M0)) Leaf raw
+    /\ length raw = m_obs M0 - 1
+    /\ Permutation (heights d') (map (k_rt (kops_of (QFr rt) meth)) (map (@s_dis Q) raw))
+    /\ (requires_sorting meth = false -> heights d' = map (k_rt (kops_of (QFr rt) meth)) (map (@s_dis Q) raw)).
+Proof. exact primitive_greedy_Q. Qed.
+Print Assumptions C03_primitive_greedy_Q.
